@@ -46,6 +46,9 @@ func TestVerif(t *testing.T) {
 	switch prop {
 	case "C10":
 		verifC10Dialer(t, r, out)
+		verifCheckInterface(t, r, out)
+	case "C13", "C14", "C15":
+		verifAddresser(t, r, out)
 	case "C11":
 		verifC11(t, r, out)
 	default:
